@@ -19,7 +19,7 @@ TECHNIQUE = "exhaustive product mnemonic x operand shape x size suffix x boundar
 RULE = (
     "one-instruction programs `*=0x008000` + line: every mnemonic of the assembler's table and of the ISA matrix x 47 operand shapes (implied; plain/# with "
     "none,x,y,s and double indexes; ( ) and [ ] with every inner x outer index in {none,x,y,s}) x suffix {none,.b,.w,.l} x values (thorough: 0,0x7F,0xFF,0x100,0x1234,"
-    "0xFFFF,0x10000,0x123456,0xFFFFFF,0x1000000; quick: 0xFF,0x100,0xFFFF,0x10000,0x123456) x letter case {lower, UPPER, Mixed}; unsuffixed operands also spelled as zero-padded hex (4/6/8 digits), decimal and zero-padded binary, and as a single `:=` symbol whose name looks like a register or a size suffix (a, A, x, Y, s, S, b, w, L); plus Hypothesis operands that are random "
+    "0xFFFF,0x10000,0x123456,0xFFFFFF,0x1000000; quick: 0xFF,0x100,0xFFFF,0x10000,0x123456,0x1234567 -- a value wider than the field is truncated or the statement rejected) x letter case {lower, UPPER, Mixed}; unsuffixed operands also spelled as zero-padded hex (4/6/8 digits), decimal and zero-padded binary, and as a single `:=` symbol whose name looks like a register or a size suffix (a, A, x, Y, s, S, b, w, L); plus Hypothesis operands that are random "
     "expression trees in #, plain, ( ) and [ ] position.  Oracle: accepted => bytes == ISA opcode for (mnemonic, syntax, width) + value truncated little-endian, one block; "
     "ISA-undefined combination => rejected; supported_set.json cell => accepted; letter case changes nothing.  Non-trivial = accepted with >=1 operand byte, or rejected "
     "ISA-undefined shape; distinct by construction (enumeration) / case hash."
@@ -42,8 +42,8 @@ for _p in ("(", "["):
         for _o in IDX:
             SHAPES.append((_p, _i, _o))
 SUFFIXES = ["", "b", "w", "l"]
-VALUES_T = [0, 0x7F, 0xFF, 0x100, 0x1234, 0xFFFF, 0x10000, 0x123456, 0xFFFFFF, 0x1000000]
-VALUES_Q = [0xFF, 0x100, 0xFFFF, 0x10000, 0x123456]
+VALUES_T = [0, 0x7F, 0xFF, 0x100, 0x1234, 0xFFFF, 0x10000, 0x123456, 0xFFFFFF, 0x1000000, 0x1234567]
+VALUES_Q = [0xFF, 0x100, 0xFFFF, 0x10000, 0x123456, 0x1234567]
 CASES = ["lower", "upper", "mixed"]
 SUPPORTED_PATH = os.path.join(VERIF_ROOT, "checks", "supported_set.json")
 
